@@ -13,6 +13,7 @@ import (
 	"encoding/binary"
 	"fmt"
 	"net"
+	"os"
 	"sort"
 	"strings"
 	"time"
@@ -54,21 +55,21 @@ type entry struct {
 }
 
 type probe struct {
-	name     string
-	data     []byte
-	secret   int
-	tt       pb.TransportType
-	pfx      int32
-	altered  string // "" genuine, "extended", or an alteration that must never be accepted
+	name    string
+	data    []byte
+	secret  int
+	tt      pb.TransportType
+	pfx     int32
+	altered string // "" genuine, "extended", or an alteration that must never be accepted
 }
 
 type inst struct {
-	rm     *lib.RegistrationManager
-	ids    []ident
-	ops    []string
-	model  map[string]*entry
-	anns   []lib.VerifDetectorMsg
-	regs   map[string]*lib.DecoyRegistration // slot -> tracked object
+	rm    *lib.RegistrationManager
+	ids   []ident
+	ops   []string
+	model map[string]*entry
+	anns  []lib.VerifDetectorMsg
+	regs  map[string]*lib.DecoyRegistration // slot -> tracked object
 }
 
 var sel = vfix.Selector(vfix.SubnetsTOML)
@@ -287,6 +288,30 @@ func main() {
 	ops = append(ops, "expire")
 	buildMenu(a.Thorough())
 	sys := &vbfs.System{OpNames: ops, New: func() vbfs.Instance { return newInst(ids, ops) }, OnNewState: probeState}
+	if a.Replay != "" {
+		// apply the recorded operation history to a fresh registry, then run the whole probe menu on the state it
+		// ends in (genuine flights are regenerated by the real client code; the recorded violation key tells which
+		// probe class failed)
+		hist, _ := vh.LoadReplay(a.Replay)["history"].([]any)
+		var idx []int
+		for _, h := range hist {
+			for i, o := range ops {
+				if o == h.(string) {
+					idx = append(idx, i)
+				}
+			}
+		}
+		k, w, log := vbfs.Replay(sys, idx)
+		for _, l := range log {
+			fmt.Fprintln(os.Stderr, l)
+		}
+		o := &vh.Out{Name: "replay", Evaluations: 1}
+		if k != "" {
+			o.Violations = append(o.Violations, &vh.Violation{Key: k, What: w})
+		}
+		vh.Emit(o)
+		return
+	}
 	var first []int
 	for i := range ops {
 		if i%a.ShardN == a.ShardI {
